@@ -51,8 +51,29 @@ def mir_release_on_new_last_state(which):
     return f
 
 
+def mir_release_on_rejected(which, upd):
+    """execute() drops the peer's proof request whatever execute_internally() returned; unless the status is ok the in-flight hashes must be
+    marked `timeout` first (fixed defect aacb150: they stayed `fetching` for ever after a rejected response + ban)."""
+    def f(cfg):
+        import mirpaths
+        q = mirpaths.Query(cfg)
+        cfg.find_calls(r'::execute_internally$')
+        upds = cfg.find_calls(r'Peers::update_%s_proof_request$' % upd)
+        q.witness(upds, 'the request drop is reachable')
+        edges = [cfg.bool_edges(c)['true'] for c in cfg.find_calls(r'Status::is_ok$', required=False)]
+        edges += [(c.block, c.ret) for c in cfg.find_calls(r'Peers::mark_fetching_%s_timeout$' % which, required=False)]
+        q.must_pass(upds, edges, 'the proof request of the peer is dropped after a response that was NOT accepted without marking its in-flight %s as timed out '
+                    '(they stay `fetching` for ever: not listed by get_*_to_fetch, not released when the banned peer disconnects)' % which)
+        return q
+    return f
+
+
 def obligations():
     obs = [
+        MirOb('O16.4-release-rejected-headers', 'SendBlocksProofProcess::execute: a rejected response releases the in-flight header fetches before the request is dropped',
+              r'send_blocks_proof\.rs:\d+:\d+: \d+:\d+>::execute\(', mir_release_on_rejected('headers', 'blocks'), src_rel=SBP),
+        MirOb('O16.4-release-rejected-txs', 'SendTransactionsProofProcess::execute: a rejected response releases the in-flight transaction fetches before the request is dropped',
+              r'send_transactions_proof\.rs:\d+:\d+: \d+:\d+>::execute\(', mir_release_on_rejected('txs', 'txs'), src_rel=STP),
         MirOb('O16.3-release-headers', 'SendBlocksProofProcess::execute_internally: after a reply that only carries a new last state, the in-flight header fetches are marked timeout',
               r'send_blocks_proof\.rs:\d+:\d+: \d+:\d+>::execute_internally\(', mir_release_on_new_last_state('headers'), src_rel=SBP),
         MirOb('O16.3-release-txs', 'SendTransactionsProofProcess::execute_internally: after a reply that only carries a new last state, the in-flight transaction fetches are marked timeout',
